@@ -157,6 +157,8 @@ class _Ev:
             defs = _local_defs(self.f, e.id)
             if len(defs) == 1 and isinstance(defs[0], ast.Assign) and isinstance(defs[0].targets[0], ast.Name):
                 return self.ev(defs[0].value)
+            if _is_counter(defs):
+                return A('cnt:' + e.id)
             return None
         if isinstance(e, ast.Call) and U(e.func) == 'len' and len(e.args) == 1 and isinstance(e.args[0], ast.Name):
             return A('len:' + e.args[0].id)
@@ -174,6 +176,32 @@ class _Ev:
                 return l * r
             return None
         return None
+
+
+def _is_counter(defs):
+    """definitions of a counter: `c = 0` once and `c += 1` once"""
+    init = [d for d in defs if isinstance(d, ast.Assign) and isinstance(d.value, ast.Constant) and d.value.value == 0
+            and not isinstance(d.value.value, bool)]
+    incs = [d for d in defs if isinstance(d, ast.AugAssign) and isinstance(d.op, ast.Add) and
+            isinstance(d.value, ast.Constant) and d.value.value == 1]
+    return len(defs) == 2 and len(init) == 1 and len(incs) == 1
+
+
+def _counter_discipline(f, name, grant_stmt):
+    """the counter is incremented once, after the offset is handed out, in the same block."""
+    defs = _local_defs(f, name)
+    if not _is_counter(defs):
+        return '`%s` is not a counter (one `= 0`, one `+= 1`)' % name
+    inc = [d for d in defs if isinstance(d, ast.AugAssign)][0]
+    init = [d for d in defs if isinstance(d, ast.Assign)][0]
+    body = _block_of(grant_stmt)
+    if inc not in body or body.index(inc) <= body.index(grant_stmt):
+        return '`%s` is not incremented right after the offset is handed out' % name
+    # initialised outside every loop that contains the grant
+    p = parent(init)
+    if not isinstance(p, (ast.FunctionDef, ast.AsyncFunctionDef)):
+        return '`%s` is not initialised at function level' % name
+    return []
 
 
 def _list_discipline(f, name, grant_stmt):
@@ -262,14 +290,14 @@ def footer_location(ctx, ht, rule):
         v = _Ev(P, ghd).ev(g.args[0])
         if v is None:
             raise AnalysisError('cannot normalise the footer offset `%s`' % U(g.args[0])[:90])
-        lens = sorted(a for a in v.atoms() if str(a).startswith('len:'))
+        lens = sorted(a for a in v.atoms() if str(a).startswith('len:') or str(a).startswith('cnt:'))
         if len(lens) != 1:
             ctx.fail(rule, ghd, st, 'the offset handed to a stored header array `%s` does not depend on the number of '
                      'arrays already located (or on more than one counter): every array, or none, would be read from the '
                      'same place' % U(g.args[0])[:80], line=g.lineno)
             continue
         lname = str(lens[0])[4:]
-        prob = _list_discipline(ghd, lname, st)
+        prob = _list_discipline(ghd, lname, st) if str(lens[0]).startswith('len:') else _counter_discipline(ghd, lname, st)
         if isinstance(prob, str):
             ctx.fail(rule, ghd, st, 'array index of the footer offset: %s' % prob, line=g.lineno)
             continue
@@ -282,7 +310,7 @@ def footer_location(ctx, ht, rule):
             bad = None
             for a in v.atoms():
                 a = str(a)
-                if a.startswith('len:'):
+                if a.startswith('len:') or a.startswith('cnt:'):
                     sub[a] = J
                 elif a.startswith('p:'):
                     mm = m.get(a[2:])
@@ -426,3 +454,20 @@ def same_name_ctor(ctx, P, G, rule, caller_classes, target_base, exceptions=None
                             ctx.fail(rule, sf, sn, 'loader attribute `%s` is assigned `%s`, not the constructor parameter of '
                                      'that name' % (p_, U(sv)[:40]), line=sn.lineno, key_extra=p_)
     return n
+
+
+def count_expr_text(P):
+    """text of the expression that counts the located arrays in get_header_dict: 'len(<list>)' or '<counter>'"""
+    ghd = P.func('headers.HeaderwordInfo.get_header_dict')
+    for g in ast.walk(ghd.node):
+        if isinstance(g, ast.Call) and U(g.func).split('.')[-1] == 'FileOffset' and len(g.args) == 1:
+            v = _Ev(P, ghd).ev(g.args[0])
+            if v is None:
+                continue
+            for a in v.atoms():
+                a = str(a)
+                if a.startswith('len:'):
+                    return 'len(%s)' % a[4:]
+                if a.startswith('cnt:'):
+                    return a[4:]
+    return None
